@@ -249,10 +249,14 @@ def case_text(line):
     return cls, bytes.fromhex(hx).decode("utf-8")
 
 
+def strip_thread(cls):
+    return cls[:cls.rindex("@")] if cls.endswith(("@2m", "@8m", "@64m")) else cls
+
+
 def class_parts(cls):
     """deep/<shape>/<n>/<c|u>[@2m], long_chain/<shape>/<n>[@2m], nested_interface_subprogram_unclosed/<n>[@2m]"""
-    two = cls.endswith("@2m")
-    p = cls[:-3].split("/") if two else cls.split("/")
+    two = cls.endswith(("@2m", "@8m", "@64m"))
+    p = strip_thread(cls).split("/")
     fam = p[0]
     n = None
     for x in p[1:]:
@@ -559,13 +563,13 @@ def oracle_stage(res, hbin, mbin, cases_path, tag, stats, kf_entries, kf_hits, l
         parsed[i] = {k: o.get(k) for k in ("st", "nt", "nd", "trace", "units", "last_diag", "tail_tok")} if o.get("st") == "ok" else o
         st = o.get("st")
         fam, shape, depth, two = class_parts(cls)
-        ckey = fam + ("@2m" if two else "")
+        ckey = fam + (cls[cls.rindex("@"):] if two else "") + ("" if tag != "stack" else " (unoptimised build)")
         stats["classes"][ckey] = stats["classes"].get(ckey, 0) + 1
         if fam.startswith("nested_interface_subprogram") and st == "ok" and o.get("nd", 0) > 16 * o.get("nt", 0) + 64:
             # regression of F54 (a41ca14): the number of diagnostics is linear in the input, not 2^n
             o.setdefault("viol", []).append("nested interface lists of depth %s: %d diagnostics for %d tokens (exponential "
                                             "error recovery?)" % (depth, o.get("nd", 0), o.get("nt", 0)))
-        closed = cls.replace("@2m", "").endswith("/c")
+        closed = strip_thread(cls).endswith("/c")
         if fam == "deep" and st == "ok" and depth is not None and depth <= 256 and closed and shape in CLEAN_SHAPES:
             if o.get("nd", 0) != 0 or len(o.get("units", [])) != 1:
                 o.setdefault("viol", []).append(
@@ -628,7 +632,8 @@ def oracle_stage(res, hbin, mbin, cases_path, tag, stats, kf_entries, kf_hits, l
                 continue
             nviol += 1
             if nviol <= 8:
-                res.violation("%s: %s" % ({"panic": "parse_design_source panics", "hang": "parse_design_source does not terminate",
+                res.violation("[%s%s] %s: %s" % (cls, " unoptimised build" if tag == "stack" else "",
+                                                 {"panic": "parse_design_source panics", "hang": "parse_design_source does not terminate",
                                            "crash": "the parser process died"}.get(st, "returned syntax is not in bounds / consistent"),
                                           detail[:500]),
                               {"kind": "input", "class": cls, "text": text if len(text) <= 200000 else text[:2000] + " ...",
@@ -736,6 +741,15 @@ def ops_stage(res, hbin, mbin, mode_args, tag, stats, ops_samples):
     stats["ops_cases"] = stats.get("ops_cases", 0) + len(cl)
 
 
+def harness_build_dev(bin_name, timeout=3000):
+    """The same harness binary built with cargo's dev profile (opt-level 0: no tail calls, no inlining, large frames) into
+    <target>/debug; called after harness_build (which synchronises the alternative harness copy under VERIF_REPO)."""
+    env = env_base()
+    env["RUSTFLAGS"] = "--cfg %s --cap-lints allow" % GUARD
+    rc, out = run(["cargo", "build", "--offline", "--bin", bin_name], cwd=HARNESS, env=env, timeout=timeout)
+    return rc == 0, out, os.path.join(TARGET, "debug", bin_name)
+
+
 def corpus_cases(path_out):
     """corpus/C02.cases: JSON lines {"class":..., "text":...} -> harness case lines"""
     src = os.path.join(VERIF, "corpus", "C02.cases")
@@ -802,12 +816,25 @@ def main(tier, replay=None):
             return res.finish()
         oracle_stage(res, hbin, mbin, gpath, "gen", stats, kf_entries, kf_hits, loop_samples)
         ops_stage(res, hbin, mbin, ("ops", seed(), 600000 if tier == "thorough" else 30000), "ops", stats, ops_samples)
+        # the recursion-depth classes once more, in an UNOPTIMISED build of vhdl_lang (the property is about the code in
+        # either profile: a self-call in tail position is a loop at opt-level 2 and a stack frame at opt-level 0)
+        ok, log, dbin = harness_build_dev("c02")
+        if not ok:
+            res.violation("unoptimised harness build failed against the current /repo tree", {"kind": "build", "log": log[-3000:]},
+                          no_failing_input=True)
+        else:
+            spath = os.path.join(d, "stack.cases")
+            rc, out = run([hbin, "genstack", tier + ("+chain" if "+chain" in flags else ""), spath], timeout=600)
+            if rc != 0:
+                res.violation("harness c02 genstack crashed", {"kind": "harness", "log": out[-2000:]}, no_failing_input=True)
+            else:
+                oracle_stage(res, dbin, mbin, spath, "stack", stats, kf_entries, kf_hits, loop_samples)
     coq_cross_check(res, loop_samples[:160], ops_samples[:160])
     if not res.violations and not replay:
         # the generated streams are reproducible from the seed: drop the bulky intermediate files of a clean run
         import shutil
         for f in os.listdir(d):
-            if f.startswith(("gen.cases", "loop_gen", "ops.", "ops_model")):
+            if f.startswith(("gen.cases", "loop_gen", "loop_stack", "ops.", "ops_model")):
                 os.remove(os.path.join(d, f))
             elif f.startswith("work_"):
                 shutil.rmtree(os.path.join(d, f), ignore_errors=True)
@@ -845,6 +872,10 @@ def main(tier, replay=None):
         "ignored regions, nested, at end of file, and as backtick directives; numeric boundary literals (magnitudes MIN-2..MAX+2 of "
         "i8..i64/u8..u64, 10^19, 10^20, 2^100 in 35 literal forms: integer, exponent of decimal/real/based literals, base, bit string "
         "length, based digits, real mantissa, physical literals, each plain / with underscores / with leading zeros, in 7 contexts); "
+        "a `stack` stream run by an UNOPTIMISED (cargo dev profile) build "
+        "of vhdl_lang on 2 MiB and 8 MiB threads: runs of 10..200000 (thorough: 10^6) consecutive ignored regions in 6 styles (closed by "
+        "a trailing comment on the only / a later token's line, by a comment line of its own, with a real token in between, with "
+        "explanations, block comments), the nesting shapes at 200/20000 (64 MiB thread), chains at 100/500, nested interface subprograms; "
         "mixed-width lines "
         "(1-5 characters outside the BMP in a block comment / string / stray before each of 16 literal and identifier kinds, followed "
         "after 0-6 Latin-1 characters by a 2-, 3- or 4-byte character; plus random mixed-width lines) with the additional oracle that "
@@ -869,6 +900,7 @@ def main(tier, replay=None):
         "functions, which are not modelled): the implementation-level oracle on every generated input (no panic/hang/abort, "
         "ids and spans in bounds and ordered, walk with the unit's own tokens, slices against an independent tokenisation, "
         "diagnostic ranges), with the progress hypothesis monitored per iteration")
+    res.coverage["unoptimised_build_stream"] = {k: v for k, v in stats["classes"].items() if "unoptimised" in k}
     res.coverage["trusted_base"] = TRUSTED_BASE_COMMON + [
         "the harness builds vhdl_lang with debug assertions and overflow checks (harness/Cargo.toml), so TokenSpan::new's "
         "debug_assert and usize underflow panic as in the model; a plain release build would wrap / keep an unordered span instead",
